@@ -1,4 +1,5 @@
 import LentilVerif.Model.Propagate
+import LentilVerif.Gen.FftScratch
 /-! Executable model of `lentil.propagate.propagate_fft` (`_fft_shape`, shape/scratch guards, scratch zero-and-insert,
 `lentil.util.pad`, `_fft2`), generic in the value type. `np.fft.fft2(norm='ortho')`, `fftshift`, `ifftshift` are modelled
 by their documented contracts (unitary DFT with origin at index 0; index rotations by `±floor(n/2)`). Mathlib-free. -/
@@ -58,10 +59,15 @@ def padTo [Zero K] (a : Arr K) (S0 S1 : Int) : Arr K :=
       if decide (r.2.1 ≤ i) && decide (i < r.2.1 + r.2.2) && decide (c.2.1 ≤ j) && decide (j < c.2.1 + c.2.2)
       then a.get (i - r.2.1 + r.1) (j - c.2.1 + c.1) else 0 }
 
-/-- `scratch[0:S0, 0:S1] = 0` then read back as the `S0 x S1` view: zero inside the corner, old content elsewhere -/
+/-- index `(i, j)` lies in the slice region `[r0:r1, c0:c1]` -/
+def inRegion (r : (Int × Int) × (Int × Int)) (i j : Int) : Bool :=
+  decide (r.1.1 ≤ i) && decide (i < r.1.2) && decide (r.2.1 ≤ j) && decide (j < r.2.2)
+
+/-- `scratch[<zero region>] = 0` then read back through the `S0 x S1` view handed to `insert`/`_fft2`: zero inside the
+zeroed region (generated: `Gen.scratchZero`, re-translated from the source on every run), old content elsewhere.
+That the insert/transform views are the `S0 x S1` corner is theorem `C09.scratch_views_are_corner`. -/
 def zeroedCorner [Zero K] (scr : Arr K) (S0 S1 : Int) : Arr K :=
-  { s0 := S0, s1 := S1,
-    get := fun i j => if decide (0 ≤ i) && decide (i < S0) && decide (0 ≤ j) && decide (j < S1) then 0 else scr.get i j }
+  { s0 := S0, s1 := S1, get := fun i j => if inRegion (Gen.scratchZero S0 S1) i j then 0 else scr.get i j }
 
 /-- outcome of `propagate_fft` -/
 inductive FftOut (K R : Type) where
